@@ -1,8 +1,11 @@
 (* C13 uses the same executable model as C03 (Runner.v instantiated with the scripted commands). *)
 From stdpp Require Import gmap.
 Require Import DS.Base DS.Runner DS.RunnerScripted DS.SdkErr DS.RunnerNestedInst.
+(* kept identical to C03_extract.v (ocaml/c13_driver.ml is a link to c03_driver.ml, which has the bound-runner case B) *)
+Require Import DS.RunnerBind DS.RunnerBindScripted.
 Require Import ExtrOcamlBasic.
 Extraction Language OCaml.
 Extraction "../ocaml/gen/c13_model.ml" N.of_nat N.to_nat Z.of_N Z.to_N
   s_run s_iter_nohalt s_init s_exec label_table vars_list nat_str parse_i32
-  n_run n_log_of n_var n_iter.
+  n_run n_log_of n_var n_iter
+  sb_run.
